@@ -89,3 +89,60 @@ Proof.
   - destruct (H3 m eq_refl) as [Hv [Hw | Hw]]; [discriminate|]. split; [exact Hw|]. intros s Hs. specialize (H2 s Hs). lra.
   - intros s Hs. specialize (H2 s Hs). rewrite (H4 eq_refl) in H2. lra.
 Qed.
+
+(* ---- orientation of the station list (airfoil/orientation.rs) ---- *)
+Lemma hd_rev_last {A} (l : list A) (d : A) : hd d (rev l) = last l d.
+Proof.
+  induction l as [|a l IH]; [reflexivity|]. cbn [rev]. destruct l as [|b l]; [reflexivity|].
+  change (last (a :: b :: l) d) with (last (b :: l) d). rewrite <- IH. cbn [rev]. destruct (rev l ++ [b]) eqn:E; [destruct (rev l); discriminate | reflexivity].
+Qed.
+Lemma last_rev_hd {A} (l : list A) (d : A) : last (rev l) d = hd d l.
+Proof. rewrite <- (rev_involutive l) at 2. rewrite hd_rev_last. reflexivity. Qed.
+
+Lemma last_indep {A} (l : list A) (a b : A) : l <> [] -> last l a = last l b.
+Proof. induction l as [|x [|y l] IH]; intros H; [congruence | reflexivity|]. cbn [last]. apply IH. discriminate. Qed.
+
+Lemma hd_map {A B} (f : A -> B) (l : list A) d : hd (f d) (map f l) = f (hd d l).
+Proof. destruct l; reflexivity. Qed.
+
+Lemma half_lit : @nlit RNum 5 (-1) = 1 / 2.
+Proof. cbn. unfold Rlit. cbn. lra. Qed.
+
+(* DirectionFwd: the station list comes back as it was or reversed, and then its first centre is at least as far
+   along the direction as its last *)
+Theorem direction_fwd_spec (dir : @V2 RNum) (l l' : list St) : direction_fwd dir l = Ok l' ->
+  l <> [] /\ (l' = l \/ l' = reverse_inscribed_circles l) /\
+  forall d, dot2 dir (s_c (last l' d)) <= dot2 dir (s_c (hd d l')).
+Proof.
+  unfold direction_fwd. destruct l as [|s0 rest] eqn:El; [discriminate|]. rewrite <- El. rn.
+  assert (Hne : l <> []) by (rewrite El; discriminate).
+  assert (Hhd : forall d, hd d l = s0) by (intros d; rewrite El; reflexivity).
+  assert (Hlast : forall d, last l d = last l s0).
+  { intros d. apply last_indep. exact Hne. }
+  destruct (Rlt_bool (dot2 dir (s_c s0)) (dot2 dir (s_c (last l s0)))) eqn:E; rbool; intros H; inversion H; subst l'.
+  - split; [exact Hne|]. split; [right; reflexivity|]. intros d. unfold reverse_inscribed_circles.
+    assert (E2 : last (map st_reversed (rev l)) d = st_reversed s0).
+    { rewrite map_rev, last_rev_hd. destruct l as [|a l0]; [congruence|]. cbn [map hd]. f_equal. inversion El. reflexivity. }
+    rewrite E2.
+    assert (E3 : hd d (map st_reversed (rev l)) = st_reversed (last l s0)).
+    { destruct (rev l) eqn:Er; [apply (f_equal (@length _)) in Er; rewrite rev_length, El in Er; cbn in Er; lia|].
+      cbn [map hd]. f_equal. pose proof (hd_rev_last l s0) as Hh. rewrite Er in Hh. cbn [hd] in Hh. exact Hh. }
+    rewrite E3. destruct (st_reversed_flips s0) as (_ & _ & _ & -> & _). destruct (st_reversed_flips (last l s0)) as (_ & _ & _ & -> & _). lra.
+  - split; [exact Hne|]. split; [left; reflexivity|]. intros d. rewrite Hhd, Hlast. lra.
+Qed.
+
+(* TMaxFwd: the list comes back as it was when the largest circle sits in the first half of the camber length, and
+   reversed when it sits in the second half *)
+Theorem tmax_fwd_spec (l l' : list St) : tmax_fwd l = Ok l' ->
+  exists f, tmax_fraction l = Ok f /\ ((f <= 1 / 2 /\ l' = l) \/ (1 / 2 < f /\ l' = reverse_inscribed_circles l)).
+Proof.
+  unfold tmax_fwd. destruct (tmax_fraction l) as [f| |]; try discriminate. rewrite half_lit. rn.
+  destruct (Rlt_bool (1 / 2) f) eqn:E; rbool; intros H; inversion H; subst l'; exists f; (split; [reflexivity|]).
+  - right. split; [exact E | reflexivity].
+  - left. split; [exact E | reflexivity].
+Qed.
+
+(* either way no station is lost, duplicated or altered beyond its own reversal *)
+Theorem orientation_keeps (l : list St) : reverse_inscribed_circles (reverse_inscribed_circles l) = l /\
+  length (reverse_inscribed_circles l) = length l.
+Proof. split; [apply reverse_involutive|]. unfold reverse_inscribed_circles. rewrite map_length, rev_length. reflexivity. Qed.
